@@ -2,8 +2,6 @@
 
 package valid
 
-import "container/list"
-
 // C09: one inductive step of the LRU from an arbitrary valid pre-state,
 // compared with a reference LRU (a slice, most recent first).
 
@@ -63,12 +61,20 @@ func (r *vRefLRU) del(k int) {
 	r.items = append(r.items[:i:i], r.items[i+1:]...)
 }
 
-// vMkLRU builds the representation NewLRU+Store would have produced for the
-// given recency-ordered content.
-func vMkLRU(c int, items []vKV, delCount int, log *[]vKV) *LRUCache {
-	l := &LRUCache{maxSize: c, nodeMap: make(map[interface{}]*list.Element, c), list: list.New(), delMapCount: delCount}
+// vPumpKey is a key no harness uses for its own entries.
+const vPumpKey = -987654321
+
+// vMkLRU builds a cache holding the given recency-ordered content through the public API only (no
+// knowledge of the representation): the entries are stored oldest first. pump extra Store/Delete pairs
+// on a private key advance whatever internal bookkeeping deletions have (the map-rebuild counter).
+func vMkLRU(c int, items []vKV, pump int, log *[]vKV) *LRUCache {
+	l := NewLRU(c)
+	for i := 0; i < pump && c > 0; i++ {
+		l.Store(vPumpKey, 0)
+		l.Delete(vPumpKey)
+	}
 	for i := len(items) - 1; i >= 0; i-- {
-		l.nodeMap[items[i].k] = l.list.PushFront(items[i].v)
+		l.Store(items[i].k, items[i].v)
 	}
 	l.SetDelCallBackFn(func(k, v interface{}) {
 		*log = append(*log, vKV{k.(int), v.(int)})
@@ -76,55 +82,68 @@ func vMkLRU(c int, items []vKV, delCount int, log *[]vKV) *LRUCache {
 	return l
 }
 
-// vCheckLRU asserts that the real cache l abstracts to ref.
-func vCheckLRU(l *LRUCache, ref *vRefLRU, log []vKV, tag string) {
-	vAssert(len(l.nodeMap) == len(ref.items), tag+": map size = live entries")
-	vAssert(l.list.Len() == len(ref.items), tag+": list length = live entries")
-	vAssert(l.Len() == len(ref.items), tag+": Len() = live entries (not the -1 sentinel)")
-	vAssert(len(ref.items) <= ref.cap || ref.cap < 0, tag+": entries <= capacity")
-	el := l.list.Front()
-	for i := range ref.items {
-		e, ok := l.nodeMap[ref.items[i].k]
-		vAssert(ok, tag+": live key present in map")
-		if !ok || el == nil {
-			return
+func vRefDump(ref *vRefLRU) string {
+	want := ""
+	for i, it := range ref.items {
+		if i > 0 {
+			want += "\n"
 		}
-		vAssert(e == el, tag+": recency order of list matches reference")
-		vAssert(el.Value.(int) == ref.items[i].v, tag+": value most recently stored")
-		el = el.Next()
+		want += ToStr(it.v)
 	}
-	vAssert(el == nil, tag+": no extra list element")
+	return want
+}
+
+// vCheckLRU asserts, through the public API only, that the real cache l abstracts to ref: Len, the
+// recency order as Dump shows it (values are distinct per key in these harnesses), a hit with the
+// right value for every live key, a miss for probe keys that are not live, and the callback log.
+func vCheckLRU(l *LRUCache, ref *vRefLRU, log []vKV, tag string) {
+	vAssert(l.Len() == len(ref.items), tag+": Len() = live entries (not the -1 sentinel)")
+	vAssert(len(ref.items) <= ref.cap, tag+": entries <= capacity")
+	vAssert(l.Dump() == vRefDump(ref), tag+": recency order and values as Dump lists them")
 	vAssert(len(log) == len(ref.log), tag+": callback count")
 	if len(log) == len(ref.log) {
 		for i := range log {
 			vAssert(vAnd(log[i].k == ref.log[i].k, log[i].v == ref.log[i].v), tag+": callback key/value")
 		}
 	}
+	// probing Loads last (they change the recency order): least recent first keeps the order intact
+	for i := len(ref.items) - 1; i >= 0; i-- {
+		got, ok := l.Load(ref.items[i].k)
+		vAssert(ok, tag+": live key is a hit")
+		if ok {
+			vAssert(got.(int) == ref.items[i].v, tag+": value most recently stored")
+		}
+	}
+	_, ok := l.Load(vPumpKey)
+	vAssert(!ok, tag+": a key never stored is a miss")
+	vAssert(l.Dump() == vRefDump(ref), tag+": loading every key from least to most recent restores the same order")
 }
 
-func vLRUPre(maxCap int) (c int, items []vKV, delCount int) {
+func vLRUPre(maxCap int) (c int, items []vKV, pump int) {
 	c = vndChoice("cap", maxCap+1)
 	n := vndLen("n", c)
 	items = make([]vKV, n)
 	names := []string{"0", "1", "2", "3", "4", "5"}
 	for i := 0; i < n; i++ {
-		items[i] = vKV{vndInt("k" + names[i]), vndInt("v" + names[i])}
+		// symbolic keys (equality is what the cache looks at), distinct concrete values (opaque to it)
+		items[i] = vKV{vndInt("k" + names[i]), 100 + i}
+		vAssume(items[i].k != vPumpKey)
 		for j := 0; j < i; j++ {
 			vAssume(items[i].k != items[j].k)
 		}
 	}
-	delCount = vndInt("delCount")
-	vAssume(delCount >= 0)
-	vAssume(delCount < 1<<40)
+	// 0, or just enough deletions to sit right before / at the internal rebuild threshold
+	pump = []int{0, 2*c + 1, 2*c + 2}[vndChoice("pump", 3)]
 	return
 }
 
 func vLRUStep(opKind int, maxCap int) {
-	c, items, delCount := vLRUPre(maxCap)
+	c, items, pump := vLRUPre(maxCap)
 	var log []vKV
-	l := vMkLRU(c, items, delCount, &log)
+	l := vMkLRU(c, items, pump, &log)
 	ref := &vRefLRU{cap: c, items: append([]vKV(nil), items...)}
-	k, v := vndInt("k"), vndInt("v")
+	k, v := vndInt("k"), 999
+	vAssume(k != vPumpKey)
 	switch opKind {
 	case 0:
 		l.Store(k, v)
@@ -165,9 +184,10 @@ func vLRUHistory(nops int, maxCap int) {
 	for i := 0; i < nops; i++ {
 		op := vndChoice("op"+names[i], 4)
 		k := vndInt("k" + names[i])
+		vAssume(k != vPumpKey)
 		switch op {
 		case 0:
-			v := vndInt("v" + names[i])
+			v := 100 + i // distinct concrete values: opaque to the cache, they identify the store in Dump
 			l.Store(k, v)
 			ref.store(k, v)
 		case 1:
@@ -196,3 +216,49 @@ func H_C09T_hist5()        { vLRUHistory(5, 2) }
 func H_C09T_step_store6()  { vLRUStep(0, 6) }
 func H_C09T_step_load6()   { vLRUStep(1, 6) }
 func H_C09T_step_delete6() { vLRUStep(2, 6) }
+
+// the same sequence while other goroutines only observe (Len, Dump): observers change nothing, so the
+// driving goroutine's results and the final state are those of the sequential reference
+func vLRUObserved(obsA, obsB int) {
+	var log []vKV
+	l := NewLRU(2)
+	l.SetDelCallBackFn(func(k, v interface{}) { log = append(log, vKV{k.(int), v.(int)}) })
+	ref := &vRefLRU{cap: 2}
+	var gotA int
+	var okA bool
+	vGo(func() {
+		l.Store(1, 101)
+		l.Store(2, 102)
+		g, ok := l.Load(1)
+		okA = ok
+		if ok {
+			gotA = g.(int)
+		}
+		l.Store(3, 103)
+	})
+	obs := func(kind int) func() {
+		return func() {
+			if kind == 0 {
+				_ = l.Len()
+			} else {
+				_ = l.Dump()
+			}
+		}
+	}
+	vGo(obs(obsA))
+	if obsB >= 0 {
+		vGo(obs(obsB))
+	}
+	vJoin()
+	ref.store(1, 101)
+	ref.store(2, 102)
+	w, wok := ref.load(1)
+	ref.store(3, 103)
+	vAssert(okA == wok && gotA == w, "C09 observed: the load hits the key stored two steps earlier")
+	vCheckLRU(l, ref, log, "C09 observed")
+	vReach("end")
+}
+
+func H_C09_observed_len()       { vLRUObserved(0, -1) }
+func H_C09_observed_dump()      { vLRUObserved(1, -1) }
+func H_C09T_observed_len_dump() { vLRUObserved(0, 1) }
